@@ -1374,7 +1374,7 @@ fn main() {
         let to_sink = if thorough {
             true
         } else {
-            let sampled = rng.chance(1200, n_e as u64);
+            let sampled = rng.chance(600, n_e as u64);
             // all strings of at most one byte, and the 2-byte chars at the edges of each 64-block
             let keep = s.len() <= 1
                 || (s.chars().count() == 1 && {
@@ -1394,7 +1394,7 @@ fn main() {
     for s in &common {
         do_enc(&mut enc, &mut meta, &mut cls, &tera, s, true);
     }
-    let (n_rand, n_long) = if thorough { (6000, 60) } else { (400, 6) };
+    let (n_rand, n_long) = if thorough { (5000, 20) } else { (400, 4) };
     for k in 0..n_rand {
         let s = rand_string(&mut rng, 64);
         do_enc(&mut enc, &mut meta, &mut cls, &tera, &s, true);
@@ -1423,7 +1423,7 @@ fn main() {
             }
         }
         let alpha: Vec<char> = ('A'..='Z').chain('a'..='z').chain('0'..='9').chain("+/-_=".chars()).collect();
-        let n_dec = if thorough { 8000 } else { 600 };
+        let n_dec = if thorough { 4000 } else { 300 };
         for k in 0..n_dec {
             let u = rng.chance(1, 2);
             if k % 3 == 0 {
@@ -1497,7 +1497,7 @@ fn main() {
             values.push(Value::from(rand_string_len(&mut rng, n)));
         }
         // random values until `target` distinct ones (bounded number of draws)
-        let target = if thorough { 8000 } else { 700 };
+        let target = if thorough { 3000 } else { 450 };
         let mut seen: HashSet<String> = values.iter().map(gal_value).collect();
         for _ in 0..4 * target {
             if seen.len() >= target {
@@ -1543,7 +1543,7 @@ fn main() {
                 do_slug(&mut slug, &mut meta, &mut cls, &tera, &char::from_u32(cp).unwrap().to_string());
             }
         }
-        let (n_wide, n_mix, n_uni) = if thorough { (4000, 5000, 1500) } else { (300, 300, 100) };
+        let (n_wide, n_mix, n_uni) = if thorough { (2000, 2500, 1000) } else { (200, 200, 80) };
         for _ in 0..n_wide {
             let c = rand_wide_char(&mut rng);
             do_slug(&mut slug, &mut meta, &mut cls, &tera, &format!("a{c}b"));
